@@ -90,7 +90,7 @@ def extract(ctx):
 # the real validator, with attribution to visitor instances
 # ---------------------------------------------------------------------------
 
-def real_chain(schema, text, rules=None):
+def real_chain(schema, text, rules=None, parse_opts=None):
     """Rebuild the chain exactly as `default_validator` does and record which rule object holds each error.
     Returns {"outcome": "ok"|"errors"|"raise:<Class>", "by_rule": [(class name, #errors)] }."""
     from py_gql.lang import parse
@@ -99,7 +99,7 @@ def real_chain(schema, text, rules=None):
     from py_gql.validation.visitors import TypeInfoVisitor
     rules = SPECIFIED_RULES if rules is None else rules
     try:
-        document = parse(text, allow_type_system=True)
+        document = parse(text, allow_type_system=True, **(parse_opts or {}))
     except Exception as e:  # generated text must parse
         return {"outcome": "noparse:" + type(e).__name__, "by_rule": []}
     try:
@@ -330,9 +330,23 @@ def run_cases(ctx, collect, data, tag, keep=None):
         for idx, case in enumerate(data["cases"]):
             ctx.count()
             ctx.stat(tag)
-            res = real_chain(schema, case["text"])
-            if keep is None or idx in keep:
-                collect.append((w, case["text"], res, "corpus:" + case.get("id", ""), ""))
+            res = real_chain(schema, case["text"], parse_opts=case.get("parse"))
+            if res["outcome"].startswith("noparse"):
+                ctx.fail("harness:noparse:corpus:" + case.get("id", ""), "corpus text does not parse", {"text": case["text"]},
+                         kind="correspondence")
+                continue
+            if case.get("parse"):
+                ctx.stat("model-does-not-cover:parse-options")
+            elif keep is None or idx in keep:
+                # `multi`: several rules report by design - the model correspondence compares the verdict only
+                collect.append((w, case["text"], res, "corpus:" + case.get("id", "") + ("+multi" if case.get("rules_all") else ""), ""))
+            if case.get("rules_all") and res["outcome"] in ("ok", "errors"):
+                missing = sorted(set(case["rules_all"]) - set(reporting(res)))
+                if missing:
+                    ctx.fail("violation-hidden:%s:%s" % (case["sig"], "+".join(missing)),
+                             "corpus: a violation that does not sit inside a skipped node is not reported",
+                             {"kind": "violation", "sdl": data["sdl"], "text": case["text"], "label": case["sig"], "feature": "",
+                              "expected_rules": case["rules_all"], "all_rules": True, "rules": reporting(res)})
             exp = case.get("spec_valid")
             if res["outcome"].startswith("raise"):
                 raises(ctx, w, case["text"], res, "corpus:" + case.get("id", ""), "")
@@ -635,10 +649,12 @@ def replay(ctx, data):
     if kind == "valid":
         return real_verdict(schema, inp["text"]) != "errors"
     if kind == "violation":
-        res = real_chain(schema, inp["text"])
+        res = real_chain(schema, inp["text"], parse_opts=inp.get("parse"))
         if res["outcome"] != "errors":
             return res["outcome"] != "ok"
         exp = inp.get("expected_rules") or []
+        if inp.get("all_rules"):
+            return set(exp) <= set(reporting(res))
         return (not exp) or bool(set(exp) & set(reporting(res)))
     if kind == "schema-history":
         for h in inp.get("history", []):
